@@ -11,7 +11,9 @@ LEAN = ["PV.C04_charpoly_similarity", "PV.C04_charpoly_truncation", "PV.C04_trun
 
 def check(tier, seed):
     d = Decision("C04", tier, seed)
-    d.add_units(fold_canaries(run_units(specs_hermitian(tier) + specs_direct(tier))))
+    from .format_props import specs_keys
+    # symbolic input reaches the algorithm through the Taylor expansion of _sympy_to_BlockSeries (mixed monomials x^a y^b): its units run here too
+    d.add_units(fold_canaries(run_units(specs_hermitian(tier) + specs_direct(tier) + specs_keys(tier))))
     d.add_lean(LEAN + LEAN_VACUITY)
     d.premises += [["C01", "U_inv H U = H_tilde (Lean: PV.C01_similarity)"], ["C02", "U_inv U = U U_inv = 1 (Lean: PV.C02_unit_left / right)"]]
     d.assumptions += [LEAN_SETTING_NOTE,
@@ -23,7 +25,7 @@ def check(tier, seed):
     d.explanation = ("Corollary: over a commutative ring, conjugation by a unit preserves the characteristic polynomial (Mathlib: Matrix.charpoly_units_conj) and ring "
                      "homomorphisms commute with it (Matrix.charpoly_map); instantiated with the premises U_inv U = U U_inv = 1 and H_tilde = U_inv H U, which are the "
                      "C01/C02 theorems machine-checked from the extracted equations on this run (re-checked here together with all their PyVC premises).")
-    d.run_battery("bd_battery.py", ["spectrum", "spectrum_sparse", "spectrum_implicit", "herm"], "3 exact problems of dimension 3-4, truncation order 3, characteristic polynomial compared coefficient-wise; "
+    d.run_battery("bd_battery.py", ["spectrum", "spectrum_symbolic", "spectrum_sparse", "spectrum_implicit", "herm"], "3 exact problems of dimension 3-4, truncation order 3, characteristic polynomial compared coefficient-wise; 3 symbolic two-parameter problems with an x y term (exact rational arithmetic, total order 3); "
                   "one 10x10 problem with 2 explicit levels: eigenvalues of the truncated H_tilde^AA (N = 1..3, lambda = 0.02, 0.01) for explicit / implicit direct / implicit KPM / "
                   "implicit KPM with auxiliary vectors against exact eigenvalues, relative to the explicit truncation error; dense / sparse problems with degenerate levels inside "
                   "fully diagonalized blocks (N = 1..3); plus the `herm` section (premises C01 / C02)")
